@@ -737,6 +737,10 @@ func (env *cenv) evalCall(t ECall) cval {
 		a := env.eval(t.Args[0])
 		b := env.eval(t.Args[1])
 		return cval{v: Val{env.sep(a, b)}, T: tBool}
+	case "sepdeep":
+		a := env.eval(t.Args[0])
+		b := env.eval(t.Args[1])
+		return cval{v: Val{env.sepDeep(a, b)}, T: tBool}
 	case "fresh":
 		v := env.eval(t.Args[0])
 		return cval{v: Val{c.And(c.Ule(env.brkOld, v.v[0]), c.Ult(v.v[0], env.cur.brk))}, T: tBool}
@@ -753,6 +757,14 @@ func (env *cenv) evalCall(t ECall) cval {
 			return cval{v: Val{v.v[0]}, T: types.Typ[types.Uintptr]}
 		}
 		env.errf("base of %v", v.T)
+	case "rawbyte":
+		// byte view of the backing array of a slice whose elements consist of byte cells only
+		v := env.eval(t.Args[0])
+		i := env.toInt64(env.eval(t.Args[1]))
+		if _, ok := v.T.Underlying().(*types.Slice); !ok {
+			env.errf("rawbyte of %v", v.T)
+		}
+		return cval{v: Val{e.read(env.cur.h[0], c.Add(v.v[0], i))}, T: tByte}
 	case "payload":
 		v := env.eval(t.Args[0])
 		if _, ok := v.T.Underlying().(*types.Interface); !ok {
@@ -783,6 +795,9 @@ func (env *cenv) evalCall(t ECall) cval {
 			}
 			n.vars[p] = v
 		}
+		if sp, ok := env.e.P.ssaPkgs[sf.Pkg]; ok {
+			n.pkg = sp.Pkg
+		}
 		n.depth++
 		if n.depth > 40 {
 			env.errf("spec recursion too deep")
@@ -794,6 +809,28 @@ func (env *cenv) evalCall(t ECall) cval {
 			}
 		}
 		return r
+	}
+	// pure method call x.M(args) on the real code
+	if sel, ok := t.Fun.(ESel); ok {
+		if r, ok := env.pureMethodCall(sel, t.Args); ok {
+			return r
+		}
+	}
+	// pure call of a package-level function of the real code
+	if id, ok := t.Fun.(EIdent); ok && env.pkg != nil {
+		if fo, ok := env.pkg.Scope().Lookup(id.Name).(*types.Func); ok {
+			if fn := env.e.P.prog.FuncValue(fo); fn != nil {
+				var args []Val
+				for i, a := range t.Args {
+					v := env.eval(a)
+					if v.k != nil {
+						v = env.convertTo(v, fo.Type().(*types.Signature).Params().At(i).Type())
+					}
+					args = append(args, v.v)
+				}
+				return env.pureCall(fn, args)
+			}
+		}
 	}
 	// conversion T(x)
 	fv := env.eval(t.Fun)
@@ -914,4 +951,270 @@ func (env *cenv) lvalueSpans(x Expr) []span {
 		}
 	}
 	return out
+}
+
+// pureMethodCall evaluates x.M(args) by running the real method M symbolically on the
+// current state (or through its contract) and merging the outcomes. The method must be
+// side-effect free (its own contract says `assigns nothing`).
+func (env *cenv) pureMethodCall(sel ESel, argx []Expr) (cval, bool) {
+	e := env.e
+	// package-qualified function?
+	if id, ok := sel.X.(EIdent); ok {
+		if _, isVar := env.vars[id.Name]; !isVar {
+			if sp, ok := e.P.ssaPkgs[id.Name]; ok {
+				if fo, ok := sp.Pkg.Scope().Lookup(sel.Sel).(*types.Func); ok {
+					fn := e.P.prog.FuncValue(fo)
+					var args []Val
+					for i, a := range argx {
+						v := env.eval(a)
+						if v.k != nil {
+							v = env.convertTo(v, fo.Type().(*types.Signature).Params().At(i).Type())
+						}
+						args = append(args, v.v)
+					}
+					return env.pureCall(fn, args), true
+				}
+			}
+		}
+	}
+	xv := env.eval(sel.X)
+	if xv.T == nil {
+		return cval{}, false
+	}
+	var args []Val
+	if _, isI := xv.T.Underlying().(*types.Interface); isI {
+		// dynamic dispatch over the closed world
+		it := xv.T.Underlying().(*types.Interface)
+		for _, a := range argx {
+			args = append(args, env.eval(a).v)
+		}
+		var res cval
+		first := true
+		c := e.c
+		alts := env.cur.tagAlternatives(xv.v[0])
+		for _, I := range e.P.implementers(it) {
+			if alts != nil && !alts[e.P.tag(I)] {
+				continue
+			}
+			fn := e.P.method(I, sel.Sel, nil)
+			if fn == nil {
+				continue
+			}
+			cond := c.Eq(xv.v[0], c.Const(64, e.P.tag(I)))
+			sub := *env
+			sub.cur = env.cur.branch(cond)
+			var rv Val
+			if pointerShaped(I) {
+				rv = Val{xv.v[1]}
+			} else {
+				rv = sub.ld(xv.v[1], I)
+			}
+			r := sub.pureCall(fn, append([]Val{rv}, args...))
+			if first {
+				res = r
+				first = false
+				continue
+			}
+			out := make(Val, len(r.v))
+			for i := range r.v {
+				out[i] = c.Ite(cond, r.v[i], res.v[i])
+			}
+			res = cval{v: out, T: r.T}
+		}
+		if first {
+			return cval{}, false
+		}
+		return res, true
+	}
+	obj, _, _ := types.LookupFieldOrMethod(xv.T, true, env.pkg, sel.Sel)
+	fo, ok := obj.(*types.Func)
+	if !ok {
+		for _, sp := range e.P.ssaPkgs {
+			if o, _, _ := types.LookupFieldOrMethod(xv.T, true, sp.Pkg, sel.Sel); o != nil {
+				fo, ok = o.(*types.Func)
+				break
+			}
+		}
+	}
+	if !ok {
+		return cval{}, false
+	}
+	sig := fo.Type().(*types.Signature)
+	// find the concrete SSA method through the method set of T or *T
+	var fn *ssa.Function
+	recvT := xv.T
+	if fn = e.P.method(recvT, sel.Sel, nil); fn == nil {
+		if _, isP := recvT.Underlying().(*types.Pointer); !isP {
+			fn = e.P.method(types.NewPointer(recvT), sel.Sel, nil)
+			if fn != nil {
+				if xv.addr == nil {
+					env.errf("method %s needs an addressable receiver", sel.Sel)
+				}
+				xv = cval{v: Val{xv.addr}, T: types.NewPointer(recvT)}
+			}
+		}
+	}
+	if fn == nil {
+		return cval{}, false
+	}
+	// receiver shape: method set lookup on *T may return a value-receiver method wrapper; fine
+	args = append(args, xv.v)
+	for i, a := range argx {
+		v := env.eval(a)
+		if v.k != nil {
+			v = env.convertTo(v, sig.Params().At(i).Type())
+		}
+		args = append(args, v.v)
+	}
+	return env.pureCall(fn, args), true
+}
+
+func (env *cenv) pureCall(fn *ssa.Function, args []Val) cval {
+	e := env.e
+	c := e.c
+	res := fn.Signature.Results()
+	if res.Len() != 1 {
+		env.errf("pure call of %s: exactly one result expected", fn)
+	}
+	RT := res.At(0).Type()
+	ct := e.P.contracts.lookup(e.P, fn)
+	hasLoop := false
+	for _, b := range fn.Blocks {
+		if isLoopHeader(b) {
+			hasLoop = true
+		}
+	}
+	if ct != nil && !ct.Inline && len(ct.Ensures) > 0 && fn != e.rootFn && hasLoop {
+		// through the contract: fresh result constrained by the ensures clauses
+		r := e.freshVal(RT, "pure."+fn.Name())
+		penv := e.contractEnv(fn, ct, args, env.cur, env.cur, env.cur.brk)
+		penv.facts = env.facts
+		e.bindResults(penv, fn, ct, r)
+		e.evalLets(penv, ct)
+		for _, en := range ct.Ensures {
+			penv.where = en.Line
+			g := penv.evalBool(en.X)
+			if env.facts != nil && !g.hb {
+				*env.facts = append(*env.facts, g)
+			} else if env.facts != nil {
+				*env.facts = append(*env.facts, g)
+			}
+		}
+		return cval{v: r, T: RT}
+	}
+	e.mute++
+	base := env.cur.pc
+	fr := &Frame{fn: fn, regs: map[ssa.Value]Val{}, visits: map[*ssa.BasicBlock]int{}, loops: map[*ssa.BasicBlock]*loopCut{}, depth: 1}
+	e.stack = append(e.stack, fn)
+	outs := e.execFn(fn, args, nil, env.cur, fr.depth+1, nil)
+	e.stack = e.stack[:len(e.stack)-1]
+	e.mute--
+	if len(outs) == 0 {
+		env.errf("pure call of %s has no returning path", fn)
+	}
+	var out Val
+	for i := len(outs) - 1; i >= 0; i-- {
+		o := outs[i]
+		var conds []*Term
+		for p := o.st.pc; p != nil && p != base; p = p.prev {
+			if p.br {
+				conds = append(conds, p.t)
+			} else if env.facts != nil && !p.t.hb {
+				// assumed type invariants met on the way are facts, not part of the case split
+				*env.facts = append(*env.facts, p.t)
+			}
+		}
+		cond := c.And(conds...)
+		if out == nil {
+			out = append(Val{}, o.ret...)
+			continue
+		}
+		for k := range out {
+			out[k] = c.Ite(cond, o.ret[k], out[k])
+		}
+	}
+	return cval{v: out, T: RT}
+}
+
+type cspan struct {
+	cond *Term
+	span
+}
+
+// deepFootprint lists the cells of v and of everything reachable from it through
+// slices, pointers and interface values (closed world), each under its condition.
+func (env *cenv) deepFootprint(T types.Type, v Val, addr *Term, cond *Term, depth int, out *[]cspan) {
+	e := env.e
+	c := e.c
+	if depth > 9 {
+		return
+	}
+	add := func(ET types.Type, start, count *Term) {
+		sl := e.P.lay.slots(ET)
+		used := [4]bool{}
+		for _, k := range sl {
+			used[k.heapIdx()] = true
+		}
+		n := c.Mul(count, c.Const(64, uint64(len(sl))))
+		for h, u := range used {
+			if u {
+				*out = append(*out, cspan{cond, span{h, start, n}})
+			}
+		}
+	}
+	if addr != nil {
+		add(T, addr, c.Const(64, 1))
+	}
+	switch t := T.Underlying().(type) {
+	case *types.Slice:
+		add(t.Elem(), v[0], v[2])
+		// elements holding references are not followed (none in the encoders' domain
+		// except []ServiceFamily / []UnknownDescriptionBlock whose elements are flat or unused)
+	case *types.Pointer:
+		pv := env.ld(v[0], t.Elem())
+		env.deepFootprint(t.Elem(), pv, v[0], c.And(cond, c.Ne(v[0], c.Const(64, 0))), depth+1, out)
+	case *types.Struct:
+		off := 0
+		for i := 0; i < t.NumFields(); i++ {
+			n := e.P.lay.nslots(t.Field(i).Type())
+			env.deepFootprint(t.Field(i).Type(), v[off:off+n], nil, cond, depth+1, out)
+			off += n
+		}
+	case *types.Interface:
+		alts := env.cur.tagAlternatives(v[0])
+		for _, I := range e.P.implementers(t) {
+			if alts != nil && !alts[e.P.tag(I)] {
+				continue
+			}
+			cnd := c.And(cond, c.Eq(v[0], c.Const(64, e.P.tag(I))))
+			if pt, ok := I.Underlying().(*types.Pointer); ok {
+				pv := env.ld(v[1], pt.Elem())
+				env.deepFootprint(pt.Elem(), pv, v[1], cnd, depth+1, out)
+			} else {
+				bv := env.ld(v[1], I)
+				env.deepFootprint(I, bv, v[1], cnd, depth+1, out)
+			}
+		}
+	case *types.Basic:
+		if t.Info()&types.IsString != 0 {
+			*out = append(*out, cspan{cond, span{0, v[0], v[1]}})
+		}
+	}
+}
+
+func (env *cenv) sepDeep(a, b cval) *Term {
+	c := env.e.c
+	var fa []cspan
+	env.deepFootprint(a.T, a.v, a.addr, c.True, 0, &fa)
+	var cs []*Term
+	z := c.Const(64, 0)
+	for _, x := range fa {
+		for _, y := range env.footprint(b) {
+			if x.h != y.h {
+				continue
+			}
+			cs = append(cs, c.Imp(x.cond, c.Or(c.Eq(x.n, z), c.Eq(y.n, z), c.Ule(c.Add(x.start, x.n), y.start), c.Ule(c.Add(y.start, y.n), x.start))))
+		}
+	}
+	return c.And(cs...)
 }
